@@ -126,6 +126,23 @@ def build_traces(path, tier, seed):
             rf = fn(a, dti, np.array(fl), xi)
             for s_ in range(3):
                 same("BatchIndependent", rf[s_], ri[s_], dict(m, int_periods=str(ip), series=s_))
+        # call history: the same call repeated after a call that shares dt, xi, the number of periods and the end periods
+        if len(periods) >= 3 and not lead0:
+            mid = periods.copy()
+            mid[1:-1] = mid[1:-1][::-1] * (1.0 if len(periods) > 3 else 1.07)
+            for spec_fn in (sdof.pseudo_response_spectra, sdof.true_response_spectra):
+                first = spec_fn(a, dt, periods, xi)
+                spec_fn(a, dt, mid, xi)
+                again = spec_fn(a, dt, periods, xi)
+                other = spec_fn(a, dt, mid, xi)
+                singles = [spec_fn(a, dt, np.array([T]), xi) for T in mid]
+                for q in range(3):
+                    same("BatchIndependent", first[q], again[q], dict(m, history="repeat", q=q))
+                    same("BatchIndependent", np.array([sg[q][0] for sg in singles]), other[q], dict(m, history="interior changed", q=q))
+            r_mid = fn(a, dt, mid, xi)
+            r_single = [fn(a, dt, np.array([T]), xi) for T in mid]
+            for s_ in range(3):
+                same("BatchIndependent", np.concatenate([np.asarray(rs[s_]) for rs in r_single], axis=0), r_mid[s_], dict(m, history="interior changed", series=s_))
         # refinement by an integer factor (keeping r*T/dt <= 2e4)
         r = int(rng.integers(2, 9))
         keep = [kk for kk, T in enumerate(periods) if T > 0 and r * T / dt <= 2e4]
@@ -150,6 +167,24 @@ def build_traces(path, tier, seed):
                 if sel.any():
                     add({"kind": "rel", "law": "geq", "clause": "SpectraMonotoneUnderRefine", "tol": enc(1e-5), "scale": enc(1.0),
                          "x": enc_seq(np.asarray(s0[q])[sel]), "y": enc_seq(np.asarray(s1[q])[sel])}, dict(m, law="SpectraMonotoneUnderRefine", r=r, q=q))
+    # the object path refines internally (min_dt_ratio): its spectra are never below the raw-sample spectra -- also
+    # when the peak response falls on the very last instant (records short relative to the period, truncated records)
+    for j in range(10 if tier == "quick" else 80):
+        n = int(rng.integers(8, 40))
+        dt = [0.1, 0.05, 0.02][j % 3]
+        shape = ["ramp", "step", "const", "impulse_last", "walk"][j % 5]
+        a, _ = gen.record(rng, n, shape=shape, amp=1.0)
+        if shape == "impulse_last":
+            a[-2] = 0.5
+        periods = np.sort(rng.uniform(6.5, 3.0 * n, size=3)) * dt
+        raw = sdof.pseudo_response_spectra(a, dt, periods, 0.05)
+        for ratio in (2, 4, 8):
+            o = eqsig.AccSignal(a.copy(), dt, response_times=periods.copy())
+            o.gen_response_spectrum(min_dt_ratio=ratio)
+            for q, nm in enumerate(("s_d", "s_v", "s_a")):
+                add({"kind": "rel", "law": "geq", "clause": "SpectraMonotoneUnderRefine", "tol": enc(1e-5), "scale": enc(1.0),
+                     "x": enc_seq(raw[q]), "y": enc_seq(getattr(o, nm))},
+                    {"law": "SpectraMonotoneUnderRefine", "path": "AccSignal.%s(min_dt_ratio=%d)" % (nm, ratio), "n": n, "dt": dt, "shape": shape, "T_over_dt": (periods / dt).tolist()})
     write_ndjson(path, recs)
     return meta
 
